@@ -58,6 +58,7 @@ package balance
 //@        && targ("GetOrCreate", 0, old(tlen())) == old(k.Account.segments)
 //@        && trecv("Add", old(tlen()) + 1) == tres("GetOrCreate", old(tlen())).Value.Amounts
 //@        && targ("Add", 0, old(tlen()) + 1) == k && targ("Add", 1, old(tlen()) + 1) == v
+//@   ensures [C14] [C01] @account: k.Account != nil ==> tres("GetOrCreate", old(tlen())).Value.Account != nil
 //
 // Totals: the visitor adds the amounts of EVERY node it is given - whether or not the node has
 // children - into the running total of its tree, unfiltered and under the caller's key mapper; the
